@@ -8,8 +8,17 @@ import (
 	"context"
 	"crypto/sha256"
 	"errors"
+	"fmt"
+	"net"
 	"net/netip"
 	"time"
+
+	"google.golang.org/grpc"
+	"google.golang.org/grpc/codes"
+	"google.golang.org/grpc/status"
+	"google.golang.org/protobuf/types/known/timestamppb"
+
+	sdpb "github.com/scionproto/scion/pkg/proto/daemon"
 
 	"github.com/scionproto/scion/pkg/addr"
 	"github.com/scionproto/scion/pkg/daemon"
@@ -50,6 +59,71 @@ func hostHostKey(srvIA, cliIA uint64, srvHost, cliHost []byte) ([]byte, error) {
 		return nil, errors.New("n/a")
 	}
 	hak := hostASKey(drkey.HostASMeta{ProtoId: scion.DRKeyProtocolTS, SrcIA: addr.IA(srvIA), DstIA: addr.IA(cliIA), SrcHost: sh.String()})
+	k, err := generic.Deriver{Proto: hak.ProtoId}.DeriveHostHost(ch.String(), hak.Key)
+	if err != nil {
+		return nil, err
+	}
+	return k[:], nil
+}
+
+// ---------------------------------------------------------------- mode=srvgrpc: keys that rotate
+
+// In mode srvgrpc the child runs a stand-in SCION daemon (scionproto's daemon gRPC service,
+// DRKeyHostAS only) on loopback TCP and hands the listener the connector that the real
+// scion.NewDaemonConnector returns for its address. Level-2 keys rotate every epochLen of wall
+// clock time: epoch number = floor(validity / epochLen), key = sha256(identity | epoch number).
+// The parent recomputes the keys with the same function (standing in for the control plane) and
+// scionproto's host-host derivation.
+const epochLen = 3 * time.Second
+
+func epochOf(t time.Time) int64 { return t.UnixNano() / int64(epochLen) }
+
+func hostASKeyEpoch(meta drkey.HostASMeta, e int64) drkey.HostASKey {
+	h := sha256.Sum256([]byte(fmt.Sprintf("%s|%s|%s|%s|epoch%d", meta.ProtoId.String(), meta.SrcIA.String(),
+		meta.SrcHost, meta.DstIA.String(), e)))
+	k := drkey.HostASKey{
+		ProtoId: meta.ProtoId, SrcIA: meta.SrcIA, DstIA: meta.DstIA, SrcHost: meta.SrcHost,
+		Epoch: drkey.Epoch{Validity: cppki.Validity{
+			NotBefore: time.Unix(0, e*int64(epochLen)),
+			NotAfter:  time.Unix(0, (e+1)*int64(epochLen)-1),
+		}},
+	}
+	copy(k.Key[:], h[:16])
+	return k
+}
+
+type grpcFake struct {
+	sdpb.UnimplementedDaemonServiceServer
+}
+
+func (*grpcFake) DRKeyHostAS(ctx context.Context, req *sdpb.DRKeyHostASRequest) (*sdpb.DRKeyHostASResponse, error) {
+	if req.ValTime == nil || req.ValTime.CheckValid() != nil {
+		return nil, status.Error(codes.InvalidArgument, "no validity time")
+	}
+	meta := drkey.HostASMeta{ProtoId: drkey.Protocol(req.ProtocolId), SrcIA: addr.IA(req.SrcIa), DstIA: addr.IA(req.DstIa), SrcHost: req.SrcHost}
+	k := hostASKeyEpoch(meta, epochOf(req.ValTime.AsTime()))
+	return &sdpb.DRKeyHostASResponse{EpochBegin: timestamppb.New(k.Epoch.NotBefore), EpochEnd: timestamppb.New(k.Epoch.NotAfter), Key: k.Key[:]}, nil
+}
+
+func startGRPCFake() (string, error) {
+	ln, err := net.Listen("tcp", "127.0.0.1:0")
+	if err != nil {
+		return "", err
+	}
+	srv := grpc.NewServer()
+	sdpb.RegisterDaemonServiceServer(srv, &grpcFake{})
+	go srv.Serve(ln)
+	return ln.Addr().String(), nil
+}
+
+// hostHostKeyEpoch: the key shared by server host and client host in epoch e.
+func hostHostKeyEpoch(srvIA, cliIA uint64, srvHost, cliHost []byte, e int64) ([]byte, error) {
+	sh, ok1 := netip.AddrFromSlice(srvHost)
+	ch, ok2 := netip.AddrFromSlice(cliHost)
+	if !ok1 || !ok2 {
+		return nil, errors.New("n/a")
+	}
+	hak := hostASKeyEpoch(drkey.HostASMeta{ProtoId: scion.DRKeyProtocolTS, SrcIA: addr.IA(srvIA), DstIA: addr.IA(cliIA), SrcHost: sh.String()}, e)
 	k, err := generic.Deriver{Proto: hak.ProtoId}.DeriveHostHost(ch.String(), hak.Key)
 	if err != nil {
 		return nil, err
